@@ -28,18 +28,31 @@ fn ok(tg: &str) -> String {
 
 pub const PROGRAMS: &[&str] = &[
     "q-denied", "q-multi-first", "q-multi-last", "ext-denied", "ext-denied-then-allowed-in-batch", "ext-allowed-then-denied-in-batch", "txn-q-denied",
-    "txn-ext-denied-then-batch", "named-denied-then-bind", "intercept", "denied-parse-only", "ext-intercept", "txn-ext-intercept", "ext-allowed-then-intercept",
+    "txn-ext-denied-then-batch", "named-denied-then-bind", "intercept", "denied-parse-only", "ext-intercept", "txn-ext-intercept", "ext-allowed-then-intercept", "reload-then-q-denied", "reload-then-ext-denied", "pause-reload-then-q-denied",
 ];
 
 pub fn scenario(prog: &str, enabled: bool, cache: usize) -> Scenario {
     let mut pool = PoolCfg::simple("db", "transaction", 1, 1, 0);
     pool.extra = format!("query_parser_enabled = true\nprepared_statements_cache_size = {}\n", cache);
     let mut cfg = Cfg::one(pool);
-    cfg.general_extra = format!(
-        "\n[plugins.table_access]\nenabled = {e}\ntables = [\"secret\", \"pg_user\"]\n\n[plugins.intercept]\nenabled = {e}\n\n[plugins.intercept.queries.0]\nquery = \"{q}\"\nschema = [[\"a\", \"text\"], [\"b\", \"text\"]]\nresult = [[\"${{DATABASE}}\", \"{{public}}\"]]\n",
-        e = enabled,
-        q = INTERCEPT_QUERY
-    );
+    let plugins = |tables: &str| {
+        format!(
+            "\n[plugins.table_access]\nenabled = {e}\ntables = [{t}]\n\n[plugins.intercept]\nenabled = {e}\n\n[plugins.intercept.queries.0]\nquery = \"{q}\"\nschema = [[\"a\", \"text\"], [\"b\", \"text\"]]\nresult = [[\"${{DATABASE}}\", \"{{public}}\"]]\n",
+            e = enabled,
+            t = tables,
+            q = INTERCEPT_QUERY
+        )
+    };
+    // the listed tables arrive with a RELOAD while the client is connected and idle
+    let reloading = prog.starts_with("reload-") || prog.starts_with("pause-reload-");
+    let mut alt_tomls = Vec::new();
+    if reloading {
+        cfg.general_extra = plugins("\"secret\", \"pg_user\"");
+        alt_tomls.push(cfg.toml());
+        cfg.general_extra = plugins("\"audit_log\"");
+    } else {
+        cfg.general_extra = plugins("\"secret\", \"pg_user\"");
+    }
     let servers = cfg.servers();
     let mut s = Script::new("c0").connect("alice", "db", Some("alicepw"));
     let mut t = 0usize;
@@ -124,6 +137,25 @@ pub fn scenario(prog: &str, enabled: bool, cache: usize) -> Scenario {
             b.extend(sync.clone());
             s = s.send_z(b0, "P B E S").send_z(b, "P(intercepted) B E S").q(&ok(&tg()));
         }
+        "reload-then-q-denied" | "reload-then-ext-denied" => {
+            // before the reload the table is not listed: the statement is forwarded (not judged);
+            // after it, the same connected client must be refused
+            s = s.q(&ok(&tg())).wait(Cond::ActorsDone(vec![2]));
+            if prog == "reload-then-q-denied" {
+                s = s.q(DENIED).q(&ok(&tg()));
+            } else {
+                let mut b = pbe("", DENIED);
+                b.extend(sync.clone());
+                s = s.send_z(b, "P(denied) B E S").q(&ok(&tg()));
+            }
+        }
+        "pause-reload-then-q-denied" => {
+            // the statement arrives while the pool is paused, the table is listed by a RELOAD during the
+            // pause: by the time the statement may run it is a denied one
+            s = s.q(&ok(&tg())).wait(Cond::ActorAt(2, 2)).send(wire::query(DENIED), "Q denied (while paused)");
+            s.z += 1;
+            s = s.wait_z().q(&ok(&tg()));
+        }
         "denied-parse-only" => {
             // Parse of a denied statement, then the client changes its mind: Sync, then an allowed simple query
             let mut b = wire::parse("", DENIED, &[]);
@@ -141,9 +173,33 @@ pub fn scenario(prog: &str, enabled: bool, cache: usize) -> Scenario {
     Scenario {
         name: format!("C19 prog={} plugins={} cache={}", prog, if enabled { "on" } else { "off" }, cache),
         toml: cfg.toml(),
-        alt_tomls: vec![],
+        alt_tomls,
         servers,
-        actors: vec![s.actor(), probe.actor(), env("final", vec![Step::Wait(Cond::ActorsDone(vec![0, 1])), Step::Probe])],
+        actors: if reloading {
+            // actor 2: the reload, once the client has run its first statement
+            let at = s.steps.iter().position(|x| matches!(x, Step::Wait(Cond::ActorsDone(_)) | Step::Wait(Cond::ActorAt(2, _)))).unwrap();
+            let reload_steps = if prog.starts_with("pause-") {
+                vec![
+                    Step::Wait(Cond::ActorAt(0, at)),
+                    Step::Admin("PAUSE".into()),
+                    // (the client's statement is sent now and waits)
+                    Step::Wait(Cond::ActorAt(0, at + 2)),
+                    Step::WriteConfig(0),
+                    Step::Admin("RELOAD".into()),
+                    Step::Admin("RESUME".into()),
+                ]
+            } else {
+                vec![Step::Wait(Cond::ActorAt(0, at)), Step::WriteConfig(0), Step::Admin("RELOAD".into())]
+            };
+            vec![
+                s.actor(),
+                probe.actor(),
+                env("reload", reload_steps),
+                env("final", vec![Step::Wait(Cond::ActorsDone(vec![0, 1])), Step::Probe]),
+            ]
+        } else {
+            vec![s.actor(), probe.actor(), env("final", vec![Step::Wait(Cond::ActorsDone(vec![0, 1])), Step::Probe])]
+        },
         opts: Opts::default(),
         meta: serde_json::Value::Null,
     }
@@ -287,7 +343,7 @@ pub fn build(tier: &str) -> SimCheck {
         oracle: Box::new(oracle),
         bound: 0,
         limits: Limits::default(),
-        rule: "sim: 14 programs (denied simple query, denied part first/last of a multi-statement query, denied extended batch, denied + allowed statements in one batch in both orders, inside a transaction over both protocols, denied named statement bound later, intercept over the simple protocol, over the extended protocol outside / inside a transaction / after an allowed batch, denied Parse abandoned) x plugins on/off x statement caching off/on; then a second client and a pooler-state probe".into(),
+        rule: "sim: 17 programs (denied simple query, denied part first/last of a multi-statement query, denied extended batch, denied + allowed statements in one batch in both orders, inside a transaction over both protocols, denied named statement bound later, intercept over the simple protocol, over the extended protocol outside / inside a transaction / after an allowed batch, denied Parse abandoned, a table listed by a RELOAD while the client is connected and idle then named over the simple / extended protocol, or named while the pool is paused and listed by a RELOAD during the pause) x plugins on/off x statement caching off/on; then a second client and a pooler-state probe".into(),
         assumptions: vec!["denied text recognised on the backend by the listed table reference it contains".into()],
     }
 }
